@@ -293,10 +293,11 @@ func (s *SelectStatement) ToStreamConfig() (*types.Config, string, error) {
 			CountStateTTL:      s.Window.CountStateTTL,
 			GroupByKeys:        extractGroupFields(s),
 			// Global-window fields (no-op for other window types).
-			TriggerCondition: s.Window.TriggerCondition,
-			SelectFields:     aggs,
-			FieldAlias:       fields,
-			FieldExpressions: expressions,
+			TriggerCondition:   s.Window.TriggerCondition,
+			SelectFields:       aggs,
+			FieldAlias:         fields,
+			FieldExpressions:   expressions,
+			PostAggExpressions: postAggExpressions,
 		},
 		GroupFields:        extractGroupFields(s),
 		SelectFields:       aggs,
